@@ -104,21 +104,35 @@ theorem field_errors_under_key (env : Env) (node : Nat) (ty : String) (d : Nat) 
             · exact hrep _ e he
             · exact prefixErrs_path _ _ e he
 
-/-- **C01_typename (as coded).**  `__typename` yields the *static* container type's name (D14: under an
-interface- or union-typed field that is the abstract type, not the object's own type). -/
-theorem typename_static (env : Env) (h : env.cfg.condByIdentity = true) (node : Nat) (ty : String) (d : Nat)
+/-- **C01_typename.**  `__typename` yields the name of the type the selections are walked at. -/
+theorem typename_walked (env : Env) (node : Nat) (ty : String) (d : Nat)
     (res : List (String × J)) (al : String) (args : List ArgVal) (sels : List Sel) :
     (rSel env node ty d res (.field al "__typename" args [] sels)).1 =
       setKey res (if al.isEmpty then "__typename" else al) (.str ty) := by
-  simp [rSel, Skip.skipSel, h]
+  simp [rSel, Skip.skipSel]
 
-/-- **C08_typename (repaired configuration).**  With `condByIdentity` off, `__typename` under an
-abstract-typed field is the name of the object type the node's Go type is bound to. -/
-theorem typename_concrete (env : Env) (h : env.cfg.condByIdentity = false) (node : Nat) (ty : String) (d : Nat)
-    (res : List (String × J)) (al : String) (args : List ArgVal) (sels : List Sel) (n : Node)
-    (hn : env.graph[node]? = some n) (ha : ∀ nm fs is, env.schema.find ty ≠ some (.object nm fs is)) :
-    (rSel env node ty d res (.field al "__typename" args [] sels)).1 =
-      setKey res (if al.isEmpty then "__typename" else al) (.str n.goType) := by
-  simp only [rSel, Skip.skipSel, List.foldl_nil, Bool.false_eq_true, if_false, h, hn, beq_self_eq_true, if_true]
+/-- as coded at first (D14): the selections of an interface-typed field are walked at the interface -/
+theorem dynTy_static (env : Env) (h : env.cfg.condByIdentity = true) (node : Nat) (ty : String) :
+    dynTy env node ty = ty := by
+  simp [dynTy, h]
+
+/-- **C08_typename (repaired configuration).**  With `condByIdentity` off the selections of an interface-typed
+field (and with them `__typename`, `typename_walked`) are walked at the object type the node's Go type is bound
+to, when that type implements the interface. -/
+theorem dynTy_concrete (env : Env) (h : env.cfg.condByIdentity = false) (node : Nat) (ty : String) (n : Node)
+    (hn : env.graph[node]? = some n) (inm : String) (ifs0 : List FieldDef) (hi : env.schema.find ty = some (.iface inm ifs0))
+    (onm : String) (fs : List FieldDef) (ifs : List String)
+    (ho : env.schema.find n.goType = some (.object onm fs ifs)) (himp : ifs.contains ty = true) :
+    dynTy env node ty = n.goType := by
+  have hm : ty ∈ ifs := by simpa using himp
+  simp [dynTy, h, hn, hi, ho, hm]
+
+/-- an object-typed position is walked at its declared type in both configurations -/
+theorem dynTy_object (env : Env) (node : Nat) (ty : String) (onm : String) (fs : List FieldDef) (ifs : List String)
+    (ho : env.schema.find ty = some (.object onm fs ifs)) : dynTy env node ty = ty := by
+  unfold dynTy
+  split
+  · rfl
+  · simp [ho]
 
 end Ggql.Walk
